@@ -1,6 +1,10 @@
 	// ===== engine K harnesses for rcgen/src/certificate.rs =====
 	use crate::verif_lib::{bare_params, fixed_random_state, ku_of};
 	use crate::{RemoteKeyPair, SignatureAlgorithm, PKCS_ED25519};
+	use std::net::IpAddr;
+	use pki_types::CertificateDer;
+	use time::OffsetDateTime;
+	use yasna::{DERWriter, Tag};
 
 	/// number of leading one bits of a big-endian mask, or None if the mask is not contiguous
 	pub(crate) fn mask_ok(mask: &[u8], prefix: u8) -> bool {
